@@ -284,7 +284,7 @@ class World:
         si = op[1] % len(self.states) if len(op) > 1 else 0
         s = self.states[si]
         if kind_ == "requery":
-            st["requeries"] += 1
+            st["fault.requery_of_old_state_between_steps"] += 1
             acts = self._actions(s.root)
             if acts != s.actions:
                 fs.append(Finding("C09", {"clause": "isolation", "rule": "-", "what": "actions-changed"},
@@ -295,7 +295,7 @@ class World:
             self.res.events.append(f"requery {si} -> {len(acts)}")
             return fs
         if kind_ == "reprint":
-            st["reprints"] += 1
+            st["fault.reprint_of_old_state_between_steps"] += 1
             p = self._safe_str(s.root)
             if s.printed is not None and p != s.printed:
                 fs.append(Finding("C09", {"clause": "isolation", "rule": "-", "what": "print-changed"},
@@ -326,6 +326,9 @@ class World:
         node = order[ni]
         st["steps"] += 1
         st["steps." + rule_name] += 1
+        if si != len(self.states) - 1:
+            st["fault.expansion_of_an_older_state"] += 1
+        st["fault.step_aborted"] += 0
         local = desc(node, 2)
         ctx = path_to_root(node)
         new_root = None
@@ -639,7 +642,9 @@ class RewriteSim:
         if "=" in text and "BM" not in chosen and rng.random() < 0.7:
             chosen.append("BM")
         cfg["rules"] = sorted(chosen)
-        cfg["weights"] = {r: rng.choice([1, 1, 2, 4]) for r in cfg["rules"]}
+        # the swaps apply almost everywhere; give the rarely applicable rules more weight
+        cfg["weights"] = {r: rng.choice([1, 1, 2, 4]) if r in ("CS", "CSnp", "AG") else rng.choice([2, 4, 8])
+                          for r in cfg["rules"]}
         cfg["policy"] = rng.choice(["uniform", "newest", "oldest", "round-robin", "deepest"])
         cfg["n_ops"] = rng.choice([4, 8, 12, 24, 24, 40])
         cfg["query_p"] = rng.choice([0.0, 0.1, 0.3])
